@@ -217,6 +217,8 @@ class Frame:
         if fdef.args.kwarg:
             self.env[fdef.args.kwarg.arg] = CONST
         self.taint = []  # stack of data-dependent branch conditions
+        self.sticky = []  # data-dependent conditions under which the function may already have returned: everything later is
+        #                   control-dependent on them
 
     # -- driver -----------------------------------------------------------
     def run(self):
@@ -246,6 +248,8 @@ class Frame:
             return
         if isinstance(st, ast.Return):
             v = self.ev(st.value) if st.value is not None else CONST
+            if self.taint or self.sticky:
+                v = taint(v, "returned under (or after an early return under) a data-dependent branch")
             self.rets.append((st, v))
             return
         if isinstance(st, ast.Assign):
@@ -282,6 +286,8 @@ class Frame:
             env2 = self.env
             if data_dep and not (only_raises or only_warns):
                 self.taint.pop()
+                if any(isinstance(r, ast.Return) for b in st.body + st.orelse for r in ast.walk(b)):
+                    self.sticky.append(c)
             merged = {}
             for k in set(env1) | set(env2):
                 a, b = env1.get(k), env2.get(k)
@@ -306,7 +312,7 @@ class Frame:
 
     # -- assignment ----------------------------------------------------------
     def assign(self, tgt, v, value_node, st):
-        if self.taint:
+        if self.taint or self.sticky:
             v = taint(v, "assigned under a data-dependent branch")
         if isinstance(tgt, ast.Name):
             self.env[tgt.id] = v
